@@ -53,6 +53,9 @@ def alphabet(root, full=True):
     A.append(("unknown_req", "fortls/doesNotExist", {"x": 1}, True))
     A.append(("unknown_note", "fortls/doesNotExist", {"x": 1}, False))
     A.append(("unknown_req_unicode", "fortls/\u00fcberpr\u00fcfen\u20ac\U0001F600", {"x": "\u00e9"}, True))
+    # `$/` messages may be ignored when they are notifications; a request still gets MethodNotFound
+    A.append(("unknown_req_dollar", "$/doesNotExist", {"x": 1}, True))
+    A.append(("unknown_note_dollar", "$/doesNotExist", {"x": 1}, False))
     A.append(("exit_note", "exit", MISSING, False))
     A.append(("shutdown", "shutdown", MISSING, True))
     A.append(("cancel", "$/cancelRequest", {"id": 1}, False))
